@@ -50,6 +50,9 @@ pub enum WRule {
     Broken,
     /// never accept anything again (peer stopped reading, buffers full)
     Stall,
+    /// accept everything until the client has hung up; from then on fail with BrokenPipe (the hang-up is reported by
+    /// the next write although the end of stream has not been read yet)
+    BrokenOncePeerClosed,
 }
 
 #[derive(Clone, Debug)]
@@ -84,6 +87,8 @@ pub struct PipeState {
     pub write_blocked: bool,
     read_waker: Option<Waker>,
     in_closed: Option<EofKind>,
+    /// the client has closed its end (whether or not the end of stream has been delivered to the reader)
+    peer_closed: bool,
     /// reads the server issued after EOF / reset had been delivered
     pub reads_after_eof: u64,
     /// bytes the server end has consumed so far
@@ -251,6 +256,7 @@ impl ClientEnd {
     pub fn close(&self, kind: EofKind, gate: Gate) {
         let now = self.world.lock().unwrap().now_ns();
         let mut st = self.st.lock().unwrap();
+        st.peer_closed = true;
         st.inq.push_back(Seg {
             bytes: Vec::new(),
             pos: 0,
@@ -559,6 +565,12 @@ impl AsyncWrite for ServerEnd {
                 Some(WRule::Broken) => {
                     this.world.lock().unwrap().fault("write_broken_pipe");
                     return Poll::Ready(Err(io::Error::from(io::ErrorKind::BrokenPipe)));
+                }
+                Some(WRule::BrokenOncePeerClosed) => {
+                    if st.peer_closed {
+                        this.world.lock().unwrap().fault("write_after_the_peer_hung_up");
+                        return Poll::Ready(Err(io::Error::from(io::ErrorKind::BrokenPipe)));
+                    }
                 }
                 Some(WRule::Stall) => {
                     st.write_blocked = true;
